@@ -1379,6 +1379,22 @@ def _inep_views(events, rig, klass_hint=None):
     return out
 
 
+def _inep_steps(events, view):
+    """The trace of one observation view.  strobe / req: request and emission of a TP are one event (phase "both");
+    wire: the ERDY requests the generator accepted (phase "request") followed by what left the header queue
+    (NRDY: "both", ERDY: "emit")."""
+    steps = []
+    for e in events:
+        if e["e"] != "tp":
+            steps.append(e)
+        elif e["view"] == view:
+            ph = "emit" if (view == "wire" and e["kind"] == "erdy") else "both"
+            steps.append(dict(((k, v) for k, v in e.items() if k != "view"), phase=ph))
+        elif view == "wire" and e["view"] == "req" and e["kind"] == "erdy":
+            steps.append(dict(((k, v) for k, v in e.items() if k != "view"), phase="request"))
+    return steps
+
+
 def _inep_sanitize(words, mps):
     """Keep a producer script inside the clean class: saturating (no gaps after the start), `last` only on the
     final word, final packet neither single-word (1..4 bytes) nor ending on a packet boundary."""
@@ -1466,6 +1482,15 @@ def _inep_witnesses(mps=8):
     out.append(("zlp_after_full_packet_deferred", dict(base, words=W(full, last=True), avoid=A,
                 host=[{"k": "poll", "d": 12}, {"k": "accept", "d": 3, "nump": 0}, {"k": "poll", "d": 5},
                       {"k": "accept", "d": 3, "nump": 0}]), "req", True, 3))
+    out.append(("zlp_retried", dict(base, words=W(full, last=True) + W(full2, gap=2), avoid=A,
+                host=[{"k": "poll", "d": 12}, {"k": "accept", "d": 3, "nump": 1}, {"k": "retry", "d": 3}, {"k": "retry", "d": 2},
+                      {"k": "accept", "d": 3, "nump": 1}, {"k": "retry", "d": 2}, {"k": "accept", "d": 3, "nump": 0}]),
+                "req", True, 3))
+    out.append(("zlp_deferred_then_data", dict(base, words=W(full, last=True) + W(full2, gap=2) + W(full[:6], last=True), avoid=A,
+                host=[{"k": "poll", "d": 12}, {"k": "accept", "d": 3, "nump": 0}, {"k": "poll", "d": 7}, {"k": "retry", "d": 2},
+                      {"k": "accept", "d": 3, "nump": 0}, {"k": "poll", "d": 4}, {"k": "retry", "d": 3},
+                      {"k": "accept", "d": 3, "nump": 1}, {"k": "accept", "d": 3, "nump": 0}]),
+                "req", True, 3))
     # K8: a short last word accepted in the very cycle of the acknowledging ACK is never offered to the host
     out.append(("last_word_in_ack_cycle", dict(base, words=W(full) + W([5, 6], last=True, **{"with": "accept"}),
                 avoid=A - {"last_in_ack_cycle", "ack_without_next"},
@@ -1639,8 +1664,9 @@ def _inep_classify(trace, matched, status, meta):
     # packet had to be resent).
     if rec.get("e") == "dp":
         mps_ = trace["cfg"]["maxpkt"]
+        n_acc = sum(1 for e in ours if e["e"] == "ack" and e.get("what") == "accept")
         zlp_params = rec.get("zlp") and status in ("dp_sequence", "dp_endpoint", "retry_sequence") \
-            and rec["seq"] == 0 and rec["epn"] == 0
+            and ((rec["seq"] == 0 and rec["epn"] == 0) or rec["seq"] == (n_acc - 1) % 32)    # undriven / not yet advanced
         zlp_retry = any(e["e"] == "ack" and e.get("what") == "retry" and
                         next((d["zlp"] for d in reversed(ours[:k]) if d["e"] == "dp"), False)
                         for k, e in enumerate(ours))
@@ -1739,7 +1765,7 @@ def check_C46(rep):
     def record(events, info, epn, mps, origin, klass, views=("req", "wire"), chkep=None, name=None):
         rep.add_eval(info["cycles"])
         for view in views:
-            steps = [dict((k, v) for k, v in e.items() if k != "view") for e in events if e["e"] != "tp" or e["view"] == view]
+            steps = _inep_steps(events, view)
             has_erdy = any(e["e"] == "tp" and e["want"] == "erdy" for e in steps)
             kl = klass
             if klass == "clean" and view == "wire" and has_erdy:
